@@ -7,6 +7,7 @@
         (`boundary_id_idx_map` + `boundaries` = association list in insertion order; entry k is
          `(area id, box)` of index k)
     QuarantineEscapeAction::closest_direction   -> `closestDirection`
+        (the code before the fix of finding F27 -> `closestDirectionRounded`, kept for the record)
     QuarantineEscapeAction::QuarantineEscapeAction -> `Quarantine.new`
     QuarantineEscapeAction::action              -> `Quarantine.action`
     escape_info / escaped / distance / direction -> `Quarantine.escapeInfo`
@@ -61,8 +62,9 @@ def directionsFromString (text : String) : Except ErrKind Dirs :=
       else if tok = "W" then .ok { d with w := true }
       else .error ErrKind.invalid_argument) Dirs.noneEnabled
 
-/-- A distance as stored in a `double`: NaN, `numeric_limits<double>::max()`, or an integer
-    (every stored distance went through `std::lround` into an `int`). -/
+/-- A distance as stored in an `EscapeDistDir` record: NaN, `numeric_limits<double>::max()`, or an
+    integer (the distance of a record with a direction went through `std::lround` at the end of
+    `action`). -/
 inductive Dist where
   | nan
   | max
@@ -100,28 +102,74 @@ def lookupBox (tbl : List (Int × Box)) (area : Int) : Option Box :=
   | some en => some en.2
   | none => tbl.head?.map (·.2)
 
-def intMax : Int := 2147483647
+/-- `numeric_limits<double>::max()` = 2^1024 - 2^971, an integer. -/
+def dblMax : Int := 2 ^ 1024 - 2 ^ 971
 
-/-- Local state of `closest_direction`: `int mindist` and `DistDir closest`
+/-- Local state of `closest_direction`: `double mindist` (exact) and `DistDir closest`
     (value-initialised to `(0.0, Direction(0))`; every assignment stores `mindist` in it). -/
 structure CD where
+  mind : Rat
+  dist : Rat
+  dir : Dir
+deriving Repr, Inhabited, DecidableEq
+
+/-- `if (enabled && x < mindist) { mindist = x; closest = (mindist, d); }`: the exact distance is
+    compared and kept; nothing is rounded here. -/
+def CD.step (c : CD) (en : Bool) (x : Rat) (d : Dir) : CD :=
+  if en = true ∧ x < c.mind then ⟨x, x, d⟩ else c
+
+/-- Start state of `closest_direction`: `mindist = numeric_limits<double>::max()`, `closest = (0.0, N)`. -/
+def CD.init : CD := ⟨(dblMax : Rat), 0, .N⟩
+
+/-- `closest_direction(i, j, boundary)`; order N, S, E, W; returns the exact distance. -/
+def closestDirection (dirs : Dirs) (ns ew : Rat) (i j : Int) (b : Box) : Rat × Dir :=
+  let c1 := CD.init.step dirs.n (((i - b.n : Int) : Rat) * ns) .N
+  let c2 := c1.step dirs.s (((b.s - i : Int) : Rat) * ns) .S
+  let c3 := c2.step dirs.e (((b.e - j : Int) : Rat) * ew) .E
+  let c4 := c3.step dirs.w (((j - b.w : Int) : Rat) * ew) .W
+  (c4.dist, c4.dir)
+
+/-! #### Pre-fix behaviour, kept for the record (finding F27)
+
+  Before the `fix:` commit for F27, `closest_direction` kept its running minimum as a ROUNDED
+  `int` (`mindist = std::lround(x)`) and compared the exact next candidate with it, and `action`
+  compared the rounded per-cell results. With a non-integer resolution the reported direction
+  could be that of a side that is not the nearest. Nothing in the model of the current code uses
+  these definitions; `C18_nearest_old_code_fails` evaluates them on a witness. -/
+
+def intMax : Int := 2147483647
+
+/-- PRE-FIX local state: `int mindist`, `DistDir closest`. -/
+structure CDRounded where
   mind : Int
   dist : Int
   dir : Dir
 deriving Repr, Inhabited, DecidableEq
 
-/-- `if (enabled && x < mindist) { mindist = lround(x); closest = (mindist, d); }` -/
-def CD.step (c : CD) (en : Bool) (x : Rat) (d : Dir) : CD :=
+/-- PRE-FIX `if (enabled && x < mindist) { mindist = lround(x); closest = (mindist, d); }` -/
+def CDRounded.step (c : CDRounded) (en : Bool) (x : Rat) (d : Dir) : CDRounded :=
   if en = true ∧ x < (c.mind : Rat) then ⟨lround x, lround x, d⟩ else c
 
-/-- `closest_direction(i, j, boundary)`; order N, S, E, W. -/
-def closestDirection (dirs : Dirs) (ns ew : Rat) (i j : Int) (b : Box) : Int × Dir :=
-  let c0 : CD := ⟨intMax, 0, .N⟩
+/-- PRE-FIX `closest_direction(i, j, boundary)`; order N, S, E, W. -/
+def closestDirectionRounded (dirs : Dirs) (ns ew : Rat) (i j : Int) (b : Box) : Int × Dir :=
+  let c0 : CDRounded := ⟨intMax, 0, .N⟩
   let c1 := c0.step dirs.n (((i - b.n : Int) : Rat) * ns) .N
   let c2 := c1.step dirs.s (((b.s - i : Int) : Rat) * ns) .S
   let c3 := c2.step dirs.e (((b.e - j : Int) : Rat) * ew) .E
   let c4 := c3.step dirs.w (((j - b.w : Int) : Rat) * ew) .W
   (c4.dist, c4.dir)
+
+/-- PRE-FIX loop of `action` over infected cells that are given with the box of their own area:
+    `if (dist < get<0>(min_dist_dir)) min_dist_dir = (dist, dir)` on the rounded per-cell results
+    (`none` is the start value `(DBL_MAX, None)`). -/
+def nearestRounded (dirs : Dirs) (ns ew : Rat) : List (Cell × Box) → Option (Int × Dir) → Option (Int × Dir)
+  | [], acc => acc
+  | (c, b) :: rest, acc =>
+    let dd := closestDirectionRounded dirs ns ew c.1 c.2 b
+    nearestRounded dirs ns ew rest
+      (match acc with
+       | none => some dd
+       | some m => if dd.1 < m.1 then some dd else acc)
 
 /-- State of a `QuarantineEscapeAction`. -/
 structure Quarantine where
@@ -148,16 +196,17 @@ def Quarantine.new (areas : IRaster) (ew ns : Rat) (numSteps : Nat) (text : Stri
   | .ok d => .ok (Quarantine.make areas ew ns numSteps d)
   | .error e => .error e
 
-/-- `dist < std::get<0>(min_dist_dir)`; `none` is the start value `(DBL_MAX, None)`. -/
-def closer (d : Int) (acc : Option (Int × Dir)) : Bool :=
+/-- `dist < std::get<0>(min_dist_dir)` on exact distances; `none` is the start value
+    `(DBL_MAX, None)`. -/
+def closer (d : Rat) (acc : Option (Rat × Dir)) : Bool :=
   match acc with
-  | none => true
+  | none => decide (d < (dblMax : Rat))
   | some m => decide (d < m.1)
 
 /-- The loop of `action`. Result `none`: an infected cell with area 0 was met (early return);
-    `some acc`: the final `min_dist_dir`. -/
+    `some acc`: the final `min_dist_dir`, still with the exact distance. -/
 def escapeLoop (q : Quarantine) (inf areas : IRaster) :
-    List Cell → Option (Int × Dir) → Except ErrKind (Option (Option (Int × Dir)))
+    List Cell → Option (Rat × Dir) → Except ErrKind (Option (Option (Rat × Dir)))
   | [], acc => .ok (some acc)
   | c :: rest, acc =>
     if inf.at c.1 c.2 = 0 then escapeLoop q inf areas rest acc
@@ -169,11 +218,14 @@ def escapeLoop (q : Quarantine) (inf areas : IRaster) :
         let dd := closestDirection q.dirs q.ns q.ew c.1 c.2 b
         escapeLoop q inf areas rest (if closer dd.1 acc then some dd else acc)
 
-/-- The record `action` stores for a loop result. -/
-def infoOf : Option (Option (Int × Dir)) → EscapeInfo
+/-- The record `action` stores for a loop result. After the loop
+    `if (dir != Direction::None) dist = std::lround(dist)`: the reported distance is rounded once,
+    here; `closest_direction` never yields `None`, so the direction is `None` exactly when no
+    infected cell was met, and then `DBL_MAX` stays as it is. -/
+def infoOf : Option (Option (Rat × Dir)) → EscapeInfo
   | none => ⟨true, .nan, .none⟩
   | some none => ⟨false, .max, .none⟩
-  | some (some dd) => ⟨false, .val dd.1, dd.2⟩
+  | some (some dd) => ⟨false, .val (lround dd.1), dd.2⟩
 
 /-- `QuarantineEscapeAction::action(hosts, quarantine_areas, step)`. -/
 def Quarantine.action (q : Quarantine) (cells : List Cell) (inf areas : IRaster) (step : Nat) :
@@ -216,9 +268,6 @@ def distanceDirection (runs : List Quarantine) (step : Nat) : Except ErrKind (Li
   match collectInfos step runs with
   | .error e => .error e
   | .ok infos => .ok (infos.map fun x => (x.dist, x.dir))
-
-/-- `numeric_limits<double>::max()` = 2^1024 - 2^971, an integer. -/
-def dblMax : Int := 2 ^ 1024 - 2 ^ 971
 
 /-- `ss << std::setprecision(1) << std::fixed << x` for an exactly represented `x`: one decimal,
     exact ties to even (glibc). Used for probabilities k/n with n <= 8 (where the nearest double
